@@ -108,6 +108,12 @@ def gen_source(rng):
                 "text": rng.choice((
                     "T154N-R97W Sec 14: NE/4\rSec 15: W/2",
                     "T154N-R97W\rSec 14: Lots 1 - 3\rSec 15: that part of the NE/4\rlying north of the river"))}
+    if r < 0.05:
+        # more than 26 (and sometimes more than 52) tracts in one source
+        n2 = rng.choice((2, 6, 20, 30))
+        return {"kind": "desc", "config": None, "parse_qq": rng.random() < 0.5,
+                "source": None,
+                "text": f"T1N-R1W Secs 1 - 26: NE/4\nT2N-R1W Secs 1 - {n2}: Lot 1"}
     if r < 0.08:
         return {"kind": "empty"}
     if r < 0.12:
